@@ -29,7 +29,7 @@ CHECKS["C03"] = dict(
    design_ref="5/C03", note=_T + "; relation table written from the docstrings; resolution-based slack for interpolating solvers computed from the solver's own tables",
    technique="online contract (icontract postcondition) at the public call boundary")
 CHECKS["C05"] = dict(
-   text="Held on every public solver class found by walking exactpack.solvers (each built with random admissible parameters, N in {1,2,3,17,1000}, five container types, permuted/duplicated points): record count/order, positions first and unmodified, caller's array untouched, standard names, container equivalence, exact CSV round trip, ValueError for unknown/missing constructor parameters. Exact comparisons; the universal part is an icontract postcondition on ExactSolver.__call__. Sampling over inputs, exhaustive over classes.",
+   text="Held on every public solver class found by walking exactpack.solvers (each built with random admissible parameters, N in {1,2,3,17,1000}, five container types, permuted and permuted+duplicated points with whole records compared): record count/order, positions first and unmodified, caller's array untouched, standard names, container equivalence, exact CSV round trip, ValueError for unknown/missing constructor parameters. Exact comparisons; the universal part is an icontract postcondition on ExactSolver.__call__. Sampling over inputs, exhaustive over classes.",
    design_ref="5/C05", note=_T + "; alias list for standard names in rtm/props/c05.py; plotting is not exercised",
    technique="online contract (icontract postcondition) at the public call boundary + differential container driver")
 CHECKS["C01"] = dict(
@@ -55,7 +55,7 @@ CHECKS["C11"] = dict(
    design_ref="5/C11", note=_T + "; the truncated inner core's returned mass/kinetic energy is added to the tolerance",
    technique="conservation monitor over a recorded public call (quadrature of returned fields)")
 CHECKS["C12"] = dict(
-   text="Held on the sampled (M0, gamma, Cv, Tref, rho0, cross-section, closure) profiles that the constructors produce: time translation through the public call with the sound speed computed from the user's parameters, constancy of mass/momentum/energy flux along the profile attributes, equilibrium end states. Sampling, not proof; ED's last profile point is a listed known finding; FLD closures are decided on mass flux, translation and end states only.",
+   text="Held on the sampled (M0, gamma, Cv, Tref, rho0, cross-section, closure) profiles that the constructors produce: time translation through the public call with the sound speed computed from the user's parameters, constancy of mass/momentum/energy flux along the profile attributes, equilibrium end states, the downstream state equal to the compressed root of the jump conditions (reference by continuation from the hydrodynamic jump); absorption and scattering coefficients with all 16 zero/non-zero patterns of the four opacity exponents. Sampling, not proof; ED's last profile point is a listed known finding; FLD closures are decided on mass flux, translation and end states only.",
    design_ref="5/C12", note=_T, technique="trace-invariant monitor on solver profile attributes + metamorphic time-translation relation on public calls")
 CHECKS["C14"] = dict(
    text="Held on the sampled parameter sets: heat-equation residual, declared boundary operators, t->0+ initial profile, t->infinity static solution for Rod1D BC1-BC4 and the three sandwiches, Rectangle (PDE, top/bottom, initial data), Hutchens1 (PDE, surface, initial data). Sampling, not proof; five genuine defects (Rod1D Robin, Hutchens1 r=0, Hutchens2 accumulator, Rectangle sides, CylindricalSandwich) are listed known findings and are re-observed on every run.",
@@ -72,11 +72,11 @@ CHECKS["C17"] = dict(
    design_ref="5/C17", note=_T + "; Su-Olson comparisons on energy densities with the solver's 5e-5 absolute accuracy",
    technique="online contract (icontract postcondition) at the public call boundary + sequence monitors (monotonicity/bounds) on recorded calls")
 CHECKS["C20"] = dict(
-   text="The restriction catalogue (about 80 documented restrictions x violating/boundary values, plus black-box Noh's initial-condition checks) is executed exhaustively on every run and repeated with random valid values for the other parameters; documented out-of-domain requests must raise or return no entirely-finite record; every in-domain call of a sweep over all solver classes must return finite fields (icontract postcondition on ExactSolver.__call__). Enumeration of the catalogue, sampling of the rest; unenforced restrictions and in-domain NaN mechanisms that were not repaired are listed known findings.",
+   text="The restriction catalogue (about 80 documented restrictions x violating/boundary values, plus black-box Noh's initial-condition checks) is executed exhaustively on every run and repeated with random valid values for the other parameters; all 15 Blake pairs from 8 non-positive-definite materials and the Kenamond 2 time-ordering inequality with every parameter varied on both sides of the bound are enumerated/sampled; documented out-of-domain requests must raise or return no entirely-finite record; every in-domain call of a sweep over all solver classes must return finite fields (icontract postcondition on ExactSolver.__call__). Enumeration of the catalogue, sampling of the rest; unenforced restrictions and in-domain NaN mechanisms that were not repaired are listed known findings.",
    design_ref="5/C20", note=_T + "; the catalogue RESTR in rtm/props/c20.py was written from the pinned tree's docstrings, parameter help and messages",
    technique="fault-catalogue execution (constructor/domain outcomes observed) + online finiteness contract at the call boundary")
 CHECKS["C06"] = dict(
-   text="Held on the sampled histories: every repeated (class, constructor arguments, configuration, points, t) inside long mixed histories of 18 solver families carries the same bit-exact digest, a sample of events per history equals its first-call-in-a-fresh-interpreter reference bit for bit, and values are unchanged (1e-10; documented grid resolution for Sedov/Mader) under permutation, subsets, supersets and duplicates of the request. Sampling of histories, not enumeration; threads are out of scope.",
+   text="Held on the sampled histories: every repeated (class, constructor arguments, configuration, points, t) inside long mixed histories of 18 solver families carries the same bit-exact digest (each history holds two parameter sets of one global-using class differing in exactly one enumerated constructor argument), a sample of events per history (always those two) equals its first-call-in-a-fresh-interpreter reference bit for bit, and values are unchanged (1e-10; documented grid resolution for Sedov/Mader) under permutation, subsets, supersets and duplicates of the request; one instance of every catalogue class called at (x1,t1),(x2,t2),(x1,t1) agrees bit for bit with itself and with a fresh instance. Sampling of histories, not enumeration; threads are out of scope.",
    design_ref="5/C06", note=_T + "; fresh references come from one new interpreter per sampled event (python -m rtm.fresh)",
    technique="offline checker over recorded call histories (bit-exact digests, fresh-process replay) + batch-permutation differential monitor")
 NOT_YET = {}
